@@ -113,6 +113,11 @@ func (w *Worker) rtIntrinsic(name string, args []Val) (Val, bool) {
 		w.deadlockID = old
 		w.traces = append(w.traces, traceTerm{"assert:" + id, ts.True})
 		return ts.True, true
+	case "vFreezeShared":
+		for _, o := range w.objs {
+			o.Frozen = true
+		}
+		return nil, true
 	case "vRetryStop":
 		return nil, true
 	case "vRetry":
